@@ -64,7 +64,7 @@ func (f *sqlEqualityFinder) Visit(node *ast.Node) {
 // Evaluate reports with ok whether a NULL operand reached an = or != comparison
 // while the expression was evaluated on env, and if so returns the value of the
 // expression under three-valued logic: nil for NULL. ok is false when there was
-// no such operand or when the expression cannot be evaluated at all; the caller
+// no such operand or when the expression cannot be compiled at all; the caller
 // then evaluates the expression as it did before.
 func (nv *NullOperandValue) Evaluate(env any) (value any, ok bool) {
 	if _, err := expr.Run(nv.detector, env); err == nil || !errors.Is(err, errNullOperand) {
@@ -82,7 +82,11 @@ func (nv *NullOperandValue) Evaluate(env any) (value any, ok bool) {
 	}
 	value, err := expr.Run(nv.tolerant, env)
 	if err != nil {
-		return nil, false
+		// A NULL operand reached a comparison and the rest of the expression
+		// cannot be evaluated either (typically a function applied to the same
+		// NULL): the value is unknown. Handing the text back to the caller would
+		// let expr-lang decide it with nil != v being true.
+		return nil, true
 	}
 	return value, true
 }
